@@ -12,16 +12,15 @@ _Engine = Engine
 Engine = _ft.partial(_Engine, iter_adapters=False)
 
 EXPLANATION = (
-    'Static clauses: (R1) every line of opening_lines.txt, replayed from the standard position with an independent '
-    'reference implementation of the rules (oracle/refchess.py, perft 20/400/8902 self-check), is legal at every '
-    'ply - a lint of a source data file, no repository code is executed; (R2) the book source is well formed for '
-    "the generator (exactly one ': ' separator, single-space separated [a-h][1-8][a-h][1-8] tokens, no "
-    'quote/backslash in names) and the compiled create_book() contains one add_line per source line; (R3) the book-'
-    'then-search selector never returns GameError::InvalidMove: when the drawn book move is not a legal move it '
-    "falls back to the search; (R4) the book is keyed by the (from,to) history of the game; (R5) the search leg's "
-    'declared outcomes (imports C07.R1) and the provenance of its answer (imports C07.R2/R7: popped from this '
-    "call's scored list of generated, simulated candidates - never a remembered answer). Move quality and the "
-    'interactive loops are NOT decided.'
+    'Static clauses: (R1) every line of opening_lines.txt, replayed from the standard position with an independent reference '
+    'implementation of the rules (oracle/refchess.py, perft 20/400/8902 self-check), is legal at every ply - a lint of a source data '
+    "file, no repository code is executed; (R2) the book source is well formed for the generator (exactly one ': ' separator, single-"
+    'space separated [a-h][1-8][a-h][1-8] tokens, no quote/backslash in names) and the compiled create_book() contains one add_line per'
+    ' source line; (R3) the book-then-search selector never returns GameError::InvalidMove: when the drawn book move is not a legal '
+    "move it falls back to the search; (R4) the book is keyed by the (from,to) history of the game; (R5) the search leg's declared "
+    "outcomes (imports C07.R1) and the provenance of its answer (imports C07.R2/R7: popped from this call's scored list of generated, "
+    'simulated candidates - never a remembered answer). Move quality and the interactive loops are NOT decided. R5 imports all clauses '
+    'of C01 for the same reason (the answer is drawn from the generated list).'
 )
 ASSUMPTIONS = [
     "oracle/refchess.py implements the FIDE rules (self-checked against perft(1..3) = 20, 400, 8902 on every run)",
